@@ -309,6 +309,11 @@ def execute(triple, prop):
             if isinstance(r, tuple):
                 ctx.probe("pipeline_raises_for_file")
                 continue
+            if not argv["no_figure"] and pool is not None and pool.errors and not os.path.exists(p):
+                # the figure step (not part of the property) raised for some file of the batch and
+                # aborted the task before the CSV was written: behaviour on task failure is outside C19
+                ctx.probe("figure_step_raised_before_csv")
+                continue
             ctx.check(os.path.exists(p), "output_missing",
                       lambda: f"{s}.csv was not written (cli exception: {cli_exc!r}; worker errors: {pool.errors if pool else None})",
                       key=key)
@@ -334,7 +339,7 @@ def execute(triple, prop):
         extra = [n for n in listing if not (n.endswith(".csv") and n[:-4] in stems) and
                  not (not argv["no_figure"] and n.endswith(".png") and n[:-4] in stems)]
         ctx.check(not extra, "unexpected_output", f"unexpected files in the working directory: {extra}", key=key)
-        if not expect_fail:
+        if not expect_fail and not (pool is not None and pool.errors and not argv["no_figure"]):
             ctx.check(cli_exc is None, "cli_raised", lambda: f"cli raised {cli_exc!r}", key=key)
         # ---- probes and signature
         if pool:
